@@ -131,7 +131,7 @@ pub fn worker(ctx: &Ctx, res: &mut ShardResult) {
     for z in crate::zoo::core_zoo().iter() {
         // `colm` is left out: its scanner asks for the column (TSLexer.get_column), which is a property of the document line,
         // not of the included text, so the concatenated stand-alone text is a different input for it by design
-        if z.name == "colm" { continue; }
+        if z.name == "colm" || z.name == "docol" { continue; }
         let info = build_info(z);
         let mut parser = Parser::new();
         parser.set_language(&info.language).unwrap();
